@@ -4,6 +4,7 @@
 (b) acceptance and (c) in-run warnings are in C04_handlers (imported below when available)."""
 import math
 
+from hypothesis.control import currently_in_test_context
 from hypothesis import strategies as st, target
 
 from .. import gen
@@ -158,7 +159,8 @@ def body_generated(rec, L, s, d, c1c2, cls, L2):
     r = verdict(rec, L, s, d, c1c2, "generated/" + cls, args)
     if r is None:
         return
-    target(r, label="ratio")
+    if currently_in_test_context():      # (not when replaying a saved case)
+        target(r, label="ratio")
     rec.maximum("max_ratio", r, {"L": L, "s": s, "d": d, "c1c2": c1c2, "source": "generated/" + cls})
     if r > 0.05:
         # covariance: the ratio does not depend on the box length, the axis labelling or the charge magnitude
@@ -168,8 +170,12 @@ def body_generated(rec, L, s, d, c1c2, cls, L2):
         r_perm = verdict(rec, L, perm, 0, c1c2, "covariance", args)
         s2 = [x * L2 / L for x in s]
         r_scaled = verdict(rec, L2, s2, d, c1c2, "covariance", args)
+        # the absolute error of the lattice sum (see verdict) limits the accuracy of the ratio where both rates are
+        # tiny (motion almost perpendicular to the separation): there the relation is not decidable
+        qb = rates(L, s, d, c1c2)[1]
+        floor = 2e-11 * abs(c1c2) / (L * L) / qb if qb > 0.0 else math.inf
         for name, other in (("charge-magnitude", r_unit), ("axis-permutation", r_perm), ("box-length", r_scaled)):
-            if other is not None and abs(other - r) > 1e-8 * max(r, 1e-3) + 1e-9:
+            if other is not None and abs(other - r) > 1e-8 * max(r, 1e-3) + 1e-9 + floor:
                 rec.fail("domination/covariance/%s" % name, "ratio %r changes to %r under %s (L=%r -> %r, s=%r)"
                          % (r, other, name, L, L2, s), args)
     label = "%s/%s" % (cls, ">0.99" if r > 0.99 else (">0.9" if r > 0.9 else ("positive" if r > 0 else "no-true-rate")))
